@@ -1609,7 +1609,7 @@ func withZeroTail(prop string, share float64) {
 var zeroTailRun bool
 
 func init() {
-	for _, p := range []string{"C01", "C02", "C06", "C10", "C17", "C18", "C20"} {
+	for _, p := range []string{"C01", "C02", "C03", "C04", "C06", "C10", "C17", "C18", "C20"} {
 		withZeroTail(p, 0.06)
 	}
 }
